@@ -257,9 +257,11 @@ import contextlib
 
 
 @contextlib.contextmanager
-def patched_rng(feed):
+def patched_rng(feed, unit=False):
     """run the real code with numpy's global generator replaced by the given numbers ("for fixed
-    random numbers"): successive uniform()/rand() calls return successive entries of `feed`."""
+    random numbers"): successive uniform()/rand() calls return successive entries of `feed`.
+    unit=True: the fed numbers are the generator's UNIT samples r in [0, 1) and uniform(low, high) returns low + (high - low) * r, computed as
+    numpy computes it -- for replays that are exact to the last bit, where uniform(0, h) and h * random_sample() must see the same r."""
     if not feed:
         yield
         return
@@ -275,18 +277,20 @@ def patched_rng(feed):
         n = int(np.prod(size)) if size is not None else 1
         if x.size != n:
             raise ValueError("random draw of size %s fed with %d numbers" % (size, x.size))
+        if unit:
+            x = low + (high - low) * x
         return x.reshape(size) if size is not None else float(x)
 
     def rand(*dims):
         return uniform(0.0, 1.0, dims if dims else None)
 
-    def unit(size=None):
+    def unit_sample(size=None):
         # random_sample / random / ranf / sample of the same global generator: the next fed numbers, as they are
         return uniform(0.0, 1.0, size)
 
     np.random.uniform, np.random.rand = uniform, rand
     for nm in unit_names:
-        setattr(np.random, nm, unit)
+        setattr(np.random, nm, unit_sample)
     try:
         yield
     finally:
@@ -364,7 +368,7 @@ class FunctionCheck:
     # -- native side -----------------------------------------------------------------
     def run_native(self, v):
         fn, args, kwargs = self.sc.build(v)
-        with patched_rng([v[n] for n in self.rng_inputs]):
+        with patched_rng([v[n] for n in self.rng_inputs], unit=getattr(self, "rng_unit", False)):
             return self.select(fn(*args, **kwargs))
 
     def run_spec_native(self, v):
